@@ -162,3 +162,105 @@ Inductive reach (h : heap) : nat -> nat -> Prop :=
 
 (* a lies on a cycle *)
 Definition self_referential (h : heap) (a : nat) : Prop := exists b, child h a b /\ reach h b a.
+
+(* ------------------------------------------------------------------ as_model, read through the registry *)
+(* type(x), for the values of the model; None = a type the registry does not know *)
+Definition type_of (v : value) : option pytype :=
+  match v with
+  | PStr _ => Some TStr | PBytes _ => Some TBytes | PBool _ => Some TBool | PNone => Some TNoneType
+  | PInt _ => Some TInt | PFloat _ => Some TFloat | PCpx _ _ => Some TComplex
+  | PList _ => Some TList | PDict _ => Some TDict | PSet _ => Some TSet | PTuple _ => Some TTuple
+  | VSeq k _ => Some (TModel (cls_of_kind k))
+  | VSym _ => Some (TModel CSym) | VKw _ => Some (TModel CKw) | VInt _ => Some (TModel CInt)
+  | VFloat _ => Some (TModel CFloat) | VCpx _ _ => Some (TModel CCpx) | VStr _ _ => Some (TModel CStr)
+  | VBytes _ => Some (TModel CBytes)
+  | POpaque _ => None
+  end.
+
+Definition cls_eqb (a b : cls) : bool := text_eqb (cls_name a) (cls_name b).
+Definition pytype_eqb (a b : pytype) : bool :=
+  match a, b with
+  | TStr, TStr | TBytes, TBytes | TBool, TBool | TNoneType, TNoneType | TInt, TInt | TFloat, TFloat
+  | TComplex, TComplex | TList, TList | TDict, TDict | TSet, TSet | TTuple, TTuple => true
+  | TModel c, TModel d => cls_eqb c d
+  | _, _ => false
+  end.
+
+Fixpoint lookup_wrapper (t : pytype) (tbl : list (pytype * wrapper)) : option wrapper :=
+  match tbl with
+  | [] => None
+  | (k, w) :: r => if pytype_eqb k t then Some w else lookup_wrapper t r
+  end.
+
+Definition is_model_value (v : value) : bool :=
+  match v with VSym _ | VKw _ | VInt _ | VFloat _ | VCpx _ _ | VStr _ _ | VBytes _ | VSeq _ _ => true | _ => false end.
+
+Definition children (v : value) : list value :=
+  match v with VSeq _ l | PList l | PTuple l | PSet l | PDict l => l | _ => [] end.
+
+(* _wrappers[type(x)](x), followed for models by new.replace(x) (which keeps the attributes of a sequence) *)
+Definition apply_wrapper (w : wrapper) (v : value) : res value :=
+  match w with
+  | WClass c =>
+      match c, v with
+      | CStr, PStr s => Ok (VStr s None)
+      | CBytes, PBytes b => Ok (VBytes b)
+      | CInt, PInt z => Ok (VInt z)
+      | CFloat, PFloat f => Ok (VFloat f)
+      | CCpx, PCpx re im => Ok (VCpx re (add0 im))
+      | _, _ => Err EUnmodelled
+      end
+  | WBool => match v with PBool b => Ok (VSym (if b then s_True else s_False)) | _ => Err EUnmodelled end
+  | WNone => Ok (VSym s_None)
+  | WRecwrap _ | WDict | WFString =>
+      match as_model_list (children v) with
+      | Err e => Err e
+      | Ok l' =>
+          match v with
+          | VSeq k _ => mk_seq k l'
+          | PList _ => Ok (VSeq KList l')
+          | PTuple _ => Ok (VSeq KTuple l')
+          | PSet _ => Ok (VSeq KSet l')
+          | PDict _ => Ok (VSeq KDict l')
+          | _ => Err EUnmodelled
+          end
+      end
+  end.
+
+(* the body of as_model after the _seen test *)
+Definition as_model_via (tbl : list (pytype * wrapper)) (v : value) : res value :=
+  match type_of v with
+  | None => Err EWrapper
+  | Some t =>
+      match lookup_wrapper t tbl with
+      | Some w => apply_wrapper w v
+      | None => if is_model_value v then Ok v else Err EWrapper      (* lambda y: y, then the isinstance test *)
+      end
+  end.
+
+(* how a wrapper brackets the recursive promotion with the guard *)
+Inductive bracket :=
+| BAddTryFinallyRemove     (* _seen.add(id(l)); try: ... finally: _seen.remove(id(l)) *)
+| BNoGuard.                (* the children are promoted without touching _seen *)
+
+(* the checks of as_model, in order *)
+Inductive as_model_step :=
+| StRaiseIfSeen            (* if id(x) in _seen: raise HyWrapperError *)
+| StDispatchExactType      (* new = _wrappers.get(type(x), lambda y: y)(x) *)
+| StRaiseIfNotObject       (* if not isinstance(new, Object): raise HyWrapperError *)
+| StReplaceIfObject        (* if isinstance(x, Object): new = new.replace(x, recursive=False) *)
+| StReturn.
+
+Definition model_as_model_steps : list as_model_step :=
+  [StRaiseIfSeen; StDispatchExactType; StRaiseIfNotObject; StReplaceIfObject; StReturn].
+Definition model_recwrap_bracket : bracket := BAddTryFinallyRemove.
+Definition model_dict_bracket : bracket := BAddTryFinallyRemove.
+Definition model_fstring_bracket : bracket := BNoGuard.
+
+(* tracked = "the wrapper of this container brackets with the guard" *)
+Definition bracket_of (c : ckind) : bracket :=
+  match c with
+  | CPyDict => model_dict_bracket
+  | CModelSeq (KFString _ _) => model_fstring_bracket
+  | _ => model_recwrap_bracket
+  end.
